@@ -165,7 +165,7 @@ theorem idleInv_step (e : Env) (wf : WF e) (σ : St) (tasks : List Nat) (t0 : Na
     intro x hne hx
     rw [updateContainers_fixed e _ x (by rw [scheduleTask_other e σ t0 x hne]; exact hx), scheduleTask_other e σ t0 x hne]
   refine ⟨updateContainers_inv e _ hinv1,
-    closed_updateContainers (solid_closed e wf) _ (closed_scheduleTask (solid_closed e wf) wf σ t0 h.inv hlf0 h.solid),
+    closed_updateContainers (solid_closed e wf) _ (closed_scheduleTask (solid_closed e wf) wf σ t0 h.inv hlf0 trivial h.solid),
     h.nodup.erase t0, fun t ht => h.leaf t (List.mem_of_mem_erase ht), ?_, ?_, ?_⟩
   · intro t ht
     rw [updateContainers_size, scheduleTask_size]; exact h.inrange t (List.mem_of_mem_erase ht)
@@ -214,7 +214,7 @@ theorem idleInv_step (e : Env) (wf : WF e) (σ : St) (tasks : List Nat) (t0 : Na
       rw [boundSlot_congr e σ _ t (fun dp hdp => by rw [htgt dp hdp]; exact ⟨rfl, rfl⟩)] at hbi
       rw [updateContainers_led, scheduleTask_same e σ t0 t (Ne.symm heq) r L] at hL
       have h1 := hidle L hL i hbi hiL hon hnl
-      have h2 := closed_scheduleTask (has_closed e r i) wf σ t0 h.inv hlf0 h1
+      have h2 := closed_scheduleTask (has_closed e r i) wf σ t0 h.inv hlf0 trivial h1
       unfold Has at h2 ⊢
       rw [updateContainers_led]; exact h2
 
